@@ -281,13 +281,13 @@ def get_label(tree, **params):
             or 'gf_terminals' in params):
         gf_string = "%s%s" % (gf_separator, tree.data['edge'])
     head = ""
-    if 'mark_heads_marking' in params and tree.data['head']:
+    if 'mark_heads_marking' in params and tree.data.get('head'):
         head = DEFAULT_HEAD_MARKER
     split_marker = ""
-    if 'boyd_split_marking' in params and tree.data['split']:
+    if 'boyd_split_marking' in params and tree.data.get('split'):
         split_marker = "*"
     split_number = ""
-    if 'boyd_split_numbering' in params and tree.data['split']:
+    if 'boyd_split_numbering' in params and tree.data.get('split'):
         split_number = tree.data['block_number']
     return u"%s%s%s%s%s" % (label, gf_string, head, split_marker, split_number)
 
